@@ -25,7 +25,7 @@ for mid in sorted(os.listdir(S)):
         subprocess.run('rsync -a --exclude .git --exclude __pycache__ /repo/ %s/ && cd %s && git init -q . && git apply --whitespace=nowarn %s/patch.diff' % (tmp, tmp, d),
                        shell=True, check=True, capture_output=True)
         t0 = time.time()
-        p = subprocess.run('%s/check %s --tier quick' % (V, prop), shell=True, cwd=V, env=dict(os.environ, VERIF_REPO=tmp), capture_output=True, text=True, timeout=3600)
+        p = subprocess.run('%s/check %s --tier quick' % (V, prop), shell=True, cwd=V, env=dict(os.environ, VERIF_REPO=tmp, VERIF_STOP_ON_VIOLATION='1'), capture_output=True, text=True, timeout=3600)
         whats = sorted(set(re.findall(r'^  what: (.*)$', p.stdout, re.M)))[:3]
         status[mid] = {'own_check': prop, 'exit': p.returncode, 'caught': p.returncode == 1, 'violations': whats, 'wall_s': round(time.time() - t0, 1)}
         print(mid, 'caught' if p.returncode == 1 else 'NOT CAUGHT (exit %d)' % p.returncode, whats[:1], flush=True)
